@@ -335,3 +335,7 @@ keep("V19", ALL, [("model_functions.py", "            ccv = (ccvs_at_nodes * nod
 keep("V20", ALL, [("argmax.py", "    _max = jnp.max(a, axis=-1, keepdims=True, initial=initial, where=where)\n", "    _max = a.max(axis=-1, keepdims=True, where=where, initial=initial)\n", 1)],
      why="method spelling of max in the kernel")
 keep("V21", ALL, [("simulate.py", '        logger.info("Period: %s", period)\n\n    processed', '        logger.debug("Period %s done", period)\n\n    processed', 1)], why="logging changed")
+keep("V22", ALL, [("simulate.py", "    additional_targets=None,\n    seed=12345,\n):", "    additional_targets=None,\n    seed=12345,\n    progress=None,\n):", 1)],
+     why="new optional parameter added to simulate")
+keep("V23", ALL, [("solve_brute.py", "    n_periods = len(state_choice_spaces)\n", "    n_periods: int = len(state_choice_spaces)\n    assert n_periods >= 1\n", 1)],
+     why="annotation and an assertion added")
